@@ -750,7 +750,22 @@ func (e *c09Env) judge(s *c09Scn, at string, o *c09Obs, exact bool) {
 	b := e.before
 	rep := func(kind, desc string, rows []string) {
 		e.w.ctr["raw_violations"]++
-		sig := strings.Join([]string{kind, at, s.Mode, s.Job, s.Label, s.Part}, "|")
+		// the shape part of the class is INTRINSIC to the partition (so a capped run cannot change a signature):
+		// can the adaptive retry split the target batch (>= 2*MinFilesPerBatch files), and is dedup metadata present
+		shape := "batch<4"
+		if s.BatchFiles >= 2*compaction.MinFilesPerBatch {
+			shape = "batch>=4"
+		}
+		if s.BatchFiles == 0 {
+			shape = "batch=-"
+		}
+		if e.part.dedup() {
+			shape += ",dedup"
+		} else {
+			shape += ",plain"
+		}
+		sig := strings.Join([]string{kind, at, s.Mode, s.Job, s.Label, shape}, "|")
+		desc = fmt.Sprintf("%s [smallest way to see it: partition %s, %s at call %d (%s %s)]", desc, s.Part, s.Mode, s.Fault.K, s.Op.Kind, filepath.Base(s.Op.Path))
 		e.w.run.Violate(sig, desc, map[string]any{"scenario": s, "observed_at": at, "rows": c09Few(rows), "files_now": o.Files,
 			"rows_before": b.Total, "rows_now": o.Total, "jobs": c09Brief(e.jobLogs())})
 	}
@@ -1131,7 +1146,7 @@ func (w *c09Worker) record(p *c09Part) {
 			ev.Unbound(fmt.Sprintf("C09: crash-free job #%d of %s recorded no file-system call (shim not compiled in?)", l.Seq, p.Name))
 		}
 	}
-	if len(rec.Jobs) < 2 {
+	if len(rec.Jobs) < 1 {
 		ev.Unbound(fmt.Sprintf("C09: crash-free cycle over %s ran %d jobs (fixture not selected by the tiers?)", p.Name, len(rec.Jobs)))
 	}
 	e.laterCycles(s, m)
@@ -1331,7 +1346,6 @@ func c09RelOp(op vos.Op, store, tmp string) vos.Op {
 func c09RecLabel(op vos.Op) string { return c09Label(op, "$STORE", "$TMP") }
 
 func c09Report(run *ev.Run, parts []c09Part, scns []c09Scn, ctr map[string]int64, samples []any, complete bool) {
-	c09Regroup(run, parts, scns)
 	run.Coverage["evaluations"] = ctr["evals"]
 	run.Coverage["distinct_nontrivial"] = ctr["nontrivial"]
 	var names []string
@@ -1363,82 +1377,4 @@ func c09Report(run *ev.Run, parts []c09Part, scns []c09Scn, ctr map[string]int64
 	run.Assume("the job subprocess is this harness binary: stdin JSON -> the real compaction.RunSubprocessJob -> stdout JSON; the ~45 lines of flag/JSON glue in cmd/arc runCompactSubcommand are mirrored, not executed (the arc binary needs seconds to start)")
 	os.RemoveAll(c09Scratch())
 	run.Finish()
-}
-
-// c09Regroup turns raw violations (kind|at|mode|job|step|partition) into classes
-// kind|at|mode|job|step|shape where shape is "any-partition" when every partition in which that
-// fault point was executed fails, "batch-files>=N" when exactly those whose target batch has >=N
-// files fail, else the list of failing partitions.
-func c09Regroup(run *ev.Run, parts []c09Part, scns []c09Scn) {
-	raw, counts := run.TakeViolations()
-	type grp struct {
-		parts map[string]bool
-		ex    ev.Violation
-		exN   int
-		n     int
-	}
-	groups := map[string]*grp{}
-	nfiles := map[string]int{}
-	for _, p := range parts {
-		nfiles[p.Name] = len(p.Files)
-	}
-	for _, v := range raw {
-		f := strings.Split(v.Signature, "|")
-		if len(f) != 6 || f[0] == "HARNESS" {
-			run.Violate(v.Signature, v.Desc, v.Replay)
-			continue
-		}
-		key := strings.Join(f[:5], "|")
-		g := groups[key]
-		if g == nil {
-			g = &grp{parts: map[string]bool{}, exN: 1 << 30}
-			groups[key] = g
-		}
-		g.parts[f[5]] = true
-		g.n += counts[v.Signature]
-		if nfiles[f[5]] < g.exN {
-			g.exN, g.ex = nfiles[f[5]], v
-		}
-	}
-	for key, g := range groups {
-		f := strings.Split(key, "|")
-		mode, job, label := f[2], f[3], f[4]
-		// batch size of the target job per partition, for the partitions where this (mode, job, step) was executed
-		bsz := map[string]int{}
-		for _, s := range scns {
-			if s.Mode == mode && s.Job == job && s.Label == label {
-				bsz[s.Part] = s.BatchFiles
-			}
-		}
-		minFail, all := 1<<30, len(bsz) > 0
-		for p := range g.parts {
-			if bsz[p] < minFail {
-				minFail = bsz[p]
-			}
-		}
-		threshold := len(bsz) > 0
-		for p, n := range bsz {
-			if (n >= minFail) != g.parts[p] {
-				threshold = false
-			}
-			if !g.parts[p] {
-				all = false
-			}
-		}
-		shape := ""
-		switch {
-		case all:
-			shape = "any-partition"
-		case threshold && minFail > 0 && minFail < 1<<30:
-			shape = fmt.Sprintf("batch-files>=%d", minFail)
-		default:
-			var ns []string
-			for p := range g.parts {
-				ns = append(ns, p)
-			}
-			sort.Strings(ns)
-			shape = "partitions=" + strings.Join(ns, ",")
-		}
-		run.Violate(key+"|"+shape, fmt.Sprintf("%s (%d raw cases over %d partitions)", g.ex.Desc, g.n, len(g.parts)), g.ex.Replay)
-	}
 }
